@@ -63,6 +63,8 @@ EXTENSIONS = [
     ('renamer_chain', {'rename_handler': ['c_id', 'c_key']}),
     ('setter', {'default_setter': 's_one'}),
     ('checker', {'check_with': 'k_odd'}),
+    ('checker_chain', {'check_with': ['k_pass', 'k_odd']}),
+    ('checker_single_chain', {'check_with': ['k_odd']}),
 ]
 
 EXTRA_TYPES = [['even', [[c, b] for c, b in (('none', False), ('bool', False), ('int', True), ('flt', False), ('str', False),
@@ -351,6 +353,7 @@ def option_level(ctx):
         forms = [dict(ext), dict(ext, nullable=True)]
         if kind in ('checker',):
             forms.append({'anyof_check_with': ['k_odd', 'k_pass']})
+            forms.append({'anyof_check_with': [['k_odd', 'k_pass'], 'k_pass']})
         for rules in forms:
             Validator.clear_caches()
             try:
